@@ -70,7 +70,7 @@ func main() {
 		os.Exit(2)
 	}
 	args := os.Args[len(os.Args)-4:]
-	kind, md, journal := args[0], args[1], args[3]
+	kind, md, files, journal := args[0], args[1], args[2], args[3]
 	mrjob := os.Getenv("VSTAGE_MRJOB") != "0"
 	pre := ""
 	if kind == "split" {
@@ -178,6 +178,12 @@ func main() {
 		os.WriteFile(path.Join(md, "_stage_defs"), ob, 0644)
 	} else {
 		outs, _ := run.Untag(inv.Outs)
+		// file-typed outputs: write the file into the job's files directory and report its path
+		outs = run.Resolve(outs, func(f run.FileRef) string {
+			fp := path.Join(files, f.Name)
+			os.WriteFile(fp, []byte("content of "+f.Key()+"\n"), 0644)
+			return fp
+		})
 		ob, _ := json.Marshal(outs)
 		os.WriteFile(path.Join(md, "_outs"), ob, 0644)
 	}
